@@ -16,5 +16,6 @@ func controlsC15() []Control {
 		{Name: "river is not a timed round", Expect: "R3", Mutate: replaceIn("(*tableEngine).updateCurrentActionEndAt", "GameRound_Turn, GameRound_River}", "GameRound_Turn}", 0)},
 		{Name: "a bet offer is not a wager request", Expect: "R3", Mutate: replaceIn("(*tableEngine).updateCurrentActionEndAt", "WagerAction_Fold, WagerAction_Bet}", "WagerAction_Fold}", 0)},
 		{Name: "a refused move puts the current state on the channel again", Expect: "R5", Mutate: replaceIn("(*game).Check", "if err := g.validatePlayMove(playerIdx); err != nil {", "if err := g.validatePlayMove(playerIdx); err != nil {\n\t\tg.incomingStates <- g.gs", 0)},
+		{Name: "leave publishes a copy of the state object in place of the live one", Expect: "R6", Mutate: replaceIn("(*tableEngine).batchRemovePlayers", "\tte.table.State.GamePlayerIndexes = newGamePlayerIndexes\n", "\tte.table.State.GamePlayerIndexes = newGamePlayerIndexes\n\tnewState := *te.table.State\n\tte.table.State = &newState\n", 0)},
 	}
 }
